@@ -59,6 +59,35 @@ fn main() {
         std::process::exit(2);
     };
 
+    // ---- corpus modes (Miri engine): emit small cases from the property's own generators natively,
+    //      replay them in a build without hooks under Miri, which turns UB into an error
+    if let Some(file) = arg_value(&args, "--emit-corpus") {
+        let n: usize = arg_value(&args, "--n").and_then(|s| s.parse().ok()).unwrap_or(200);
+        let Some(gen) = prop.corpus else {
+            eprintln!("{id} has no corpus generator");
+            std::process::exit(2)
+        };
+        let cases = gen(seed, n);
+        std::fs::write(&file, serde_json::to_string(&cases).unwrap()).expect("write corpus");
+        eprintln!("[{id}] wrote {} corpus cases to {file}", cases.len());
+        std::process::exit(0);
+    }
+    if let Some(file) = arg_value(&args, "--replay-corpus") {
+        let txt = std::fs::read_to_string(&file).expect("read corpus");
+        let cases: Vec<Value> = serde_json::from_str(&txt).expect("corpus json");
+        let mut bad = 0;
+        for (i, c) in cases.iter().enumerate() {
+            // the driver attributes an interpreter error (UB) to the last announced case
+            eprintln!("CORPUS-CASE {i}");
+            if let Err(m) = (prop.replay)(c) {
+                println!("CORPUS-FAIL {i} {m}");
+                bad += 1;
+            }
+        }
+        println!("CORPUS-DONE {} cases, {} failed", cases.len(), bad);
+        std::process::exit(if bad > 0 { 1 } else { 0 });
+    }
+
     // ---- supervision: properties whose violations can kill the process run in a child
     if prop.isolated && std::env::var("VCHECK_CHILD").is_err() {
         std::process::exit(supervise(&args, &id, &verif_root, &build));
